@@ -4,6 +4,8 @@ Runs the registered checks against the seeded defects in /verif/seeded/<name>/ i
 mutation sandbox (/mut/repo = worktree of /repo, /mut/verif = worktree of /verif whose harness path
 dependencies point at /mut/repo), so that /repo itself is never touched.
 usage: tools/run_seeded.py [name ...]        results → /verif/seeded/RESULTS.json (and stdout)
+The sandbox is created on demand and can be deleted afterwards:
+  git -C /verif worktree remove --force /mut/verif; git -C /repo worktree remove --force /mut/repo
 """
 import json, os, subprocess, sys, time
 
@@ -16,7 +18,19 @@ def sh(cmd, cwd=None, timeout=None):
     return p.returncode, p.stdout.decode("utf-8", "replace")
 
 
+def ensure_sandbox():
+    """(re)create the isolated sandbox: /mut/repo = worktree of /repo, /mut/verif = worktree of /verif"""
+    os.makedirs("/mut", exist_ok=True)
+    if not os.path.exists(MREPO):
+        sh(f"git -C /repo worktree prune; git -C /repo worktree add -f --detach {MREPO} HEAD")
+    if not os.path.exists(MVERIF):
+        sh(f"git -C /verif worktree prune; git -C /verif branch -D mutbox; git -C /verif worktree add -f {MVERIF} -b mutbox")
+        # warm build outputs (keeps mtimes), if present
+        sh(f"cp -a /verif/lean/.lake {MVERIF}/lean/.lake; cp -a /verif/harness/target {MVERIF}/harness/target")
+
+
 def sync():
+    ensure_sandbox()
     # bring the sandbox up to date with /repo HEAD and /verif main (hard reset; then re-apply the
     # only local modification: harness path dependencies point at /mut/repo instead of /repo)
     head = sh("git -C /repo rev-parse HEAD")[1].strip()
